@@ -1,2 +1,10 @@
-import Blackbird
-#print axioms Blackbird.dictGet
+import Blackbird.Props.C05
+#print axioms Blackbird.C05_array_layout
+#print axioms Blackbird.C05_ragged_rejected
+#print axioms Blackbird.C05_shape_mismatch_rejected
+#print axioms Blackbird.C05_index_row_major
+#print axioms Blackbird.C05_index_out_of_range
+#print axioms Blackbird.C05_scalar_has_declared_type
+#print axioms Blackbird.C05_complex_not_cast
+#print axioms Blackbird.C05_insert_positions
+#print axioms Blackbird.C05_legacy_positions_wrong
